@@ -1332,6 +1332,17 @@ func (x *Evaluator) evalFieldRead(a *ssa.FieldAddr, t types.Type, e *env, c *eva
 				if wst.NumFields() == 1 {
 					return x.evalFieldRead(pv.FA, t, pv.Env, c)
 				}
+				// a field of a struct kept in an entry of one of the object's stacks, read through a
+				// local copy of the entry (entry.labels.ret): named by its path from the entry
+				if al, ok := pv.FA.X.(*ssa.Alloc); ok {
+					for _, r := range *al.Referrers() {
+						if st2, ok := r.(*ssa.Store); ok && st2.Addr == ssa.Value(al) {
+							if o, ok := x.evalC(st2.Val, pv.Env, c).(OpaqueV); ok && strings.Contains(o.Origin, "[*]") {
+								return x.symbolic(t, o.Origin+"."+structFieldName(pv.FA.X.Type(), pv.FA.Field)+"."+name)
+							}
+						}
+					}
+				}
 				// a field of a small struct that is itself a field of the object (a name sequence
 				// with its format and its counter): a field of the object in its own right
 				if x.objectField(pv.FA) {
